@@ -131,7 +131,7 @@ class HashLM:
         return tot, h
 
 
-def make_parsenet(path):
+def make_parsenet(path, horizontal_runs_only=False):
     """Pointwise TorchScript 'ParseNet': out maps from image channels: ch0 -> ascender height (x*40), ch1 -> descender height (x*20),
     ch2 -> baseline probability; end-point and separator maps zero. LayoutEngine(model_path=path, device=cpu) appends '.cpu'."""
     import torch
@@ -141,11 +141,23 @@ def make_parsenet(path):
             n, c, h, w = x.shape
             z = torch.zeros((n, 1, h, w), dtype=x.dtype)
             return torch.cat([x[:, 0:1] * 40.0, x[:, 1:2] * 20.0, x[:, 2:3], z, z], dim=1), z
-    torch.jit.save(torch.jit.script(StubParse().eval()), path + '.cpu')
+    class StubParseRuns(torch.nn.Module):
+        """as above, but the baseline map responds only where 9 horizontally consecutive pixels of channel 2 are set: a thin vertical
+        stroke gives no response in the upright pass and a full one in the rotated passes"""
+        def __init__(self):
+            super().__init__()
+            self.register_buffer('kernel', torch.ones(1, 1, 1, 9))
+
+        def forward(self, x):
+            n, c, h, w = x.shape
+            z = torch.zeros((n, 1, h, w), dtype=x.dtype)
+            base = torch.relu(torch.nn.functional.conv2d(x[:, 2:3], self.kernel, padding=(0, 4)) - 8.0)
+            return torch.cat([x[:, 0:1] * 40.0, x[:, 1:2] * 20.0, base, z, z], dim=1), z
+    torch.jit.save(torch.jit.script((StubParseRuns() if horizontal_runs_only else StubParse()).eval()), path + '.cpu')
     return path
 
 
-def stroke_image(hlines, vlines, H=600, W=800, asc=12, desc=4, half=8):
+def stroke_image(hlines, vlines, H=600, W=800, asc=12, desc=4, half=8, vthick=2):
     """image whose channels drive the stub ParseNet: horizontal strokes (y, x0, x1) and vertical strokes (x, y0, y1)"""
     img = np.zeros((H, W, 3), np.uint8)
     for y, x0, x1 in hlines:
@@ -153,7 +165,7 @@ def stroke_image(hlines, vlines, H=600, W=800, asc=12, desc=4, half=8):
         img[y - half:y + half, x0:x1, 0] = int(255 * asc / 40)
         img[y - half:y + half, x0:x1, 1] = int(255 * desc / 20)
     for x, y0, y1 in vlines:
-        img[y0:y1, x - 2:x + 2, 2] = 255
+        img[y0:y1, x - vthick:x + vthick, 2] = 255
         img[y0:y1, x - half:x + half, 0] = int(255 * asc / 40)
         img[y0:y1, x - half:x + half, 1] = int(255 * desc / 20)
     return img
